@@ -228,8 +228,40 @@ def _encode(env, ps):
 # the property predicates, evaluated on the REAL vector
 # ---------------------------------------------------------------------------------------------
 
-def budgets(qp, env, ps, lay):
-    """list of (key, lhs, rhs, scale): lhs must equal rhs within TOL['identity']*scale"""
+def _state_mass(q, sl, p, c):
+    """mass of compound slot c of a particle class IN THE ELEMENT, i.e. the state slot itself; a soluble class with positive
+    total mass has negative overshoots counted as 0 (PlumeParticle.properties, `m[m<0] = 0.`)"""
+    a, e = sl['m']
+    if p['issoluble'] and float(np.sum(q[a:e])) > 0.:
+        return max(float(q[a + c]), 0.)
+    return float(q[a + c])
+
+
+def predict_kbio(scn, q, lay, parts):
+    """first-order rate constants each particle class must be using, from the SCENARIO SPEC: k_bio[c] when there is no lag
+    time or the particle's age (its age slot of the state) has reached t_bio[c], else 0; all zero for a class without
+    mass.  Spec entries 'None' mean "the tamoc database values": those are read from the dbm object's static tables
+    (documented, not independent)."""
+    out = []
+    for i, (sp, pt) in enumerate(zip(scn['particles'], parts)):
+        sl = lay['particles'][i]
+        a, e = sl['m']
+        age = float(q[sl['t']])
+        kb = np.atleast_1d(np.asarray(sp['k_bio'] if sp.get('k_bio') is not None else pt.particle.k_bio, dtype=float)).copy()
+        tb = np.atleast_1d(np.asarray(sp['t_bio'] if sp.get('t_bio') is not None else pt.particle.t_bio, dtype=float))
+        if sp['lag_time']:
+            kb = np.where(tb > age, 0., kb)
+        msum = float(np.sum(np.where(q[a:e] < 0., 0., q[a:e]))) if sp['kind'] != 'inert' else float(np.sum(q[a:e]))
+        if not (float(np.sum(q[a:e])) > 0.) or not (msum > 0.):
+            kb = np.zeros(e - a)
+        out.append(kb)
+    return out
+
+
+def budgets(qp, env, ps, lay, q=None, kb=None):
+    """list of (key, lhs, rhs, scale): lhs must equal rhs within TOL['identity']*scale.  With `q` the biodegrading mass is
+    the state slot itself (not the Particle object's m*nbe); with `kb` the particle rate constants are those predicted
+    from the scenario spec (predict_kbio), not the objects' own."""
     s = env['s']
     md, Sa, Ta, ua, va, cpw, rho_a, Ru = s[0], s[1], s[2], s[3], s[4], s[6], s[14], s[10]
     out = []
@@ -264,7 +296,9 @@ def budgets(qp, env, ps, lay):
             lhs += qp[a + c]
             scale += abs(qp[a + c])
             if p['integrate']:
-                bio = p['k_bio'][c] * p['m'][c] * p['s'][1] * p['s'][6]
+                kk = kb[i][c] if kb is not None else p['k_bio'][c]
+                mass = _state_mass(q, lay['particles'][i], p, c) if q is not None else p['m'][c] * p['s'][1]
+                bio = kk * mass * p['s'][6]
                 rhs -= bio
                 scale += abs(bio)
         out.append(('compound', lhs, rhs, scale))
@@ -289,7 +323,9 @@ def budgets(qp, env, ps, lay):
     for i, p in enumerate(ps):
         if (not p['issoluble']) and p['integrate']:
             a, _e = lay['particles'][i]['m']
-            rhs = -float(np.sum(p['k_bio'] * p['m'])) * p['s'][1] * p['s'][6]
+            kk = kb[i] if kb is not None else p['k_bio']
+            mass = np.array([_state_mass(q, lay['particles'][i], p, 0)]) if q is not None else p['m'] * p['s'][1]
+            rhs = -float(np.sum(kk * mass)) * p['s'][6]
             out.append(('inert-mass', qp[a], rhs, abs(rhs)))
     # passive tracers: entrainment only
     a, e = lay['tracers']
@@ -644,16 +680,10 @@ def _real_snapshot(q0l, q1l, parts):
 
 
 def _table_value(prf, z, name):
-    """the profile table as it is AT THIS MOMENT, interpolated linearly (clamped) at depth z for one variable given by
-    NAME; 0 when the profile has no such variable.  Deliberately not Profile.get_values: what the element looked up
-    (and any bookkeeping of the look-up) is what is being judged; that get_values is clamped linear interpolation of the
-    table is property C07"""
-    names = list(prf.f_names)
-    if name not in names:
-        return 0.
-    tab = np.asarray(prf.interp_data, dtype=float)
-    zc = min(max(float(z), float(tab[0, 0])), float(tab[-1, 0]))
-    return float(np.interp(zc, tab[:, 0], tab[:, 1 + names.index(name)]))
+    """ambient reference: the HARNESS's raw table of the scenario (scen_bpm.profile_table: closed forms of the spec,
+    extended by scen_bpm.append_later), interpolated by name -- nothing of the Profile object's own arrays, names or
+    look-up code is read"""
+    return scen_bpm.table_value(prf.verif_table, z, name)
 
 
 def _ambient_at(tam, prf, bpm, z):
@@ -707,6 +737,7 @@ def _closure_line(res, p):
     for i, sl in enumerate(lay['particles']):
         X = q[sl['X'][0]:sl['X'][1]]
         args += [int(res['ps'][i]['integrate']), int(res['ps'][i]['issoluble']),
+                 int(real['rho'] == real['rho_p'][i]),       # l.3240: exact comparison of the code's own two densities
                  [real['us'][i], real['nbe'][i], real['rho_p'][i], X[0], X[1], X[2]] + list(real['x_p0'][i]) + list(real['x_p'][i]),
                  q[sl['m'][0]:sl['m'][1]]]
     return req('Lmp.closures', *args)
@@ -808,6 +839,7 @@ def run(ctx, lean_ok):
                     nstate_rej += 1
                     continue
                 nstate_ok += 1
+                res['kb_pred'] = predict_kbio(scn, res['q'], res['lay'], parts)
                 with np.errstate(all='ignore'):
                     order_checks(ctx, tam, bpm, prf, parts, case, res, t_prev, t)
                 states.append((case, res))
@@ -906,7 +938,13 @@ def run(ctx, lean_ok):
                 # any other mismatch between a particle's heat slot and its own mass slots is likewise outside the statement (the
                 # budgets below are what it demands); counted so that it shows in the evidence
                 ctx.count('observation:particle-heat-mass-mismatch')
-        for key, lhs, rhs, scale in budgets(qp, _oracle_env(env, res['ind']), ps, lay):
+        for i, p_ in enumerate(ps):
+            kbp = res['kb_pred'][i]
+            if len(kbp) != len(p_['k_bio']) or not all(close(float(x), float(y), TOL['gen_vs_source']) for x, y in zip(kbp, p_['k_bio'])):
+                ctx.violation('particle-kbio-vs-spec', 'the biodegradation rate constants a particle class uses are not k_bio of its compounds where the lag time t_bio has passed at the particle age (else 0)',
+                              dict(case, particle=i, used=[float(x) for x in p_['k_bio']], expected=[float(x) for x in kbp],
+                                   age=float(res['q'][lay['particles'][i]['t']])))
+        for key, lhs, rhs, scale in budgets(qp, _oracle_env(env, res['ind']), ps, lay, q=res['q'], kb=res['kb_pred']):
             if not (math.isfinite(lhs) and math.isfinite(rhs)):
                 ctx.violation(key + '-budget', 'budget term is not finite although every closure value is finite',
                               dict(case, budget=key, lhs=float(lhs), rhs=float(rhs)))
